@@ -218,6 +218,8 @@ func runC19(r *mc.Run) {
 		local := c.Choose("test_local_getter", 2)
 		// what the tool prints has no bearing on the exit code
 		output := c.Choose("output", 6)
+		// how a value flag is written has no bearing on its meaning: -name=value, -name value, --name=value
+		form := c.Choose("flag-form", 3)
 		id := "tool/" + c.ID()
 		if !r.Want(id) {
 			return
@@ -489,6 +491,25 @@ func runC19(r *mc.Run) {
 			allowed[0] = true
 		}
 		// run
+		if form != 0 {
+			var re []string
+			for _, a := range args {
+				eq := strings.Index(a, "=")
+				name := strings.TrimLeft(a, "-")
+				if eq > 0 {
+					name = strings.TrimLeft(a[:eq], "-")
+				}
+				switch {
+				case !strings.HasPrefix(a, "-") || eq < 0 || name == "quiet" || name == "test_local_getter":
+					re = append(re, a)
+				case form == 1:
+					re = append(re, a[:eq], a[eq+1:])
+				default:
+					re = append(re, "-"+a)
+				}
+			}
+			args = re
+		}
 		code, stderr := runTool(bin, args, stdinFor[inputs[in].name])
 		out := fmt.Sprintf("exit%d", code)
 		var al []int
